@@ -61,7 +61,7 @@ def shards(tier, seed):
             out.append(dict(leg="planner-2d", shape=shape, part=part, nparts=nparts))
     for k, L in b["inc"]:
         total = (2**k - 1) ** L
-        nparts = max(1, total // 2000)
+        nparts = max(1, total // 1000)
         for part in range(nparts):
             out.append(dict(leg="planner-inc", k=k, L=L, part=part, nparts=nparts))
     for n in range(2, b["graph_n3"] + 1):
@@ -82,7 +82,7 @@ def shards(tier, seed):
             out.append(dict(leg="graph-1d", n=n, alphabet=[0, 1], part=part, nparts=nparts, methods=[None, "cohorts"]))
     for k, L in b["graph_inc"]:
         total = (2**k - 1) ** L
-        nparts = max(1, total // 600)
+        nparts = max(1, total // 150)
         for part in range(nparts):
             out.append(dict(leg="graph-inc", k=k, L=L, part=part, nparts=nparts))
     for shape in b["graph_2d"]:
